@@ -11,6 +11,9 @@ if not os.path.exists(TOOL) and os.path.exists("/verif/tools/sorobanvx/target/re
     TOOL = "/verif/tools/sorobanvx/target/release/sorobanvx"   # developer worktrees share the built translator
 
 
+LOST_HINTS = []   # proof hints whose anchor text no longer exists in the translated body (dropped; see splice_body)
+
+
 class Undecided(Exception):
     """exit 2: lost anchor, unsupported construct, tool limit — never an alarm"""
 
@@ -370,7 +373,7 @@ def splice_body(body: str, spec: FnSpec, n_loops: int, key: str, diverge_spec="e
     if spec:
         for k in spec.loops:
             if k >= n_loops:
-                raise Undecided(f"{key}: spec names loop {k} but the function has {n_loops} loops (lost anchor)")
+                LOST_HINTS.append(f"{key}: loop spec {k} dropped (the function now has {n_loops} loops)")
     # diverging closures (T5)
     def clos(m):
         k = int(m.group(4))
@@ -403,7 +406,9 @@ def splice_body(body: str, spec: FnSpec, n_loops: int, key: str, diverge_spec="e
                 lines = body.split("\n")
                 hits = [i for i, l in enumerate(lines) if needle in l]
                 if len(hits) <= nth:
-                    raise Undecided(f"{key}: anchor {anchor!r} lost")
+                    # ghost hint only: without it the proof can fail but never wrongly succeed
+                    LOST_HINTS.append(f"{key}: proof hint at anchor {anchor!r} dropped (anchor text no longer present)")
+                    continue
                 L = hits[nth]
                 ind = len(lines[L]) - len(lines[L].lstrip())
                 end = None
@@ -415,7 +420,8 @@ def splice_body(body: str, spec: FnSpec, n_loops: int, key: str, diverge_spec="e
                     if i == L and li.rstrip().endswith("{"):
                         continue
                 if end is None:
-                    raise Undecided(f"{key}: anchor {anchor!r}: statement end not found")
+                    LOST_HINTS.append(f"{key}: proof hint at anchor {anchor!r} dropped (statement end not found)")
+                    continue
                 lines.insert(end + 1, block)
                 body = "\n".join(lines)
             elif anchor == "end":
@@ -427,7 +433,9 @@ def splice_body(body: str, spec: FnSpec, n_loops: int, key: str, diverge_spec="e
                 lines = body.split("\n")
                 hits = [i for i, l in enumerate(lines) if needle in l]
                 if len(hits) <= nth:
-                    raise Undecided(f"{key}: anchor {anchor!r} lost")
+                    # ghost hint only: without it the proof can fail but never wrongly succeed
+                    LOST_HINTS.append(f"{key}: proof hint at anchor {anchor!r} dropped (anchor text no longer present)")
+                    continue
                 L = hits[nth]
                 # the hit may be a continuation line of a multi-line statement (`let x = e\n    .f(..)`):
                 # walk back to the line that starts the statement
